@@ -93,6 +93,25 @@ def validate_pure_trace(run, scratch, name, module, events, canary_field="got", 
     discarded. Returns the set of indices (0-based) flagged WF (spec-constrained) if printed."""
     if not events:
         raise ToolError(f"{name}: empty trace")
+    # a call that panicked has no answer of the recorded shape: it is reported here (a panic in the
+    # library is data) and left out of what TLC evaluates, so that the rest of the trace is still checked
+    kept = []
+    for i, ev in enumerate(events):
+        msg = _panic_in(ev)
+        if msg is None:
+            kept.append(ev)
+            continue
+        sig = {"step": name, "panic": True}
+        if signature:
+            try:
+                sig.update(signature(ev))
+            except Exception:
+                pass
+        run.violation(name, {"signature": sig, "event": ev, "event_index": i, "library_panic": msg})
+    run.extra.setdefault("panicked_calls", {})[name] = len(events) - len(kept)
+    events = kept
+    if not events:
+        return set(), []
     canary = copy.deepcopy(events[_canary_pick(events, canary_pred)])
     if corrupt:
         canary = corrupt(canary)
@@ -138,6 +157,24 @@ def validate_pure_trace(run, scratch, name, module, events, canary_field="got", 
             sig.update(signature(ev))
         run.violation(name, {"signature": sig, "event": ev, "event_index": i})
     return wf, other
+
+
+def _panic_in(v):
+    """the message of a recorded panic anywhere inside an event (harness: {"panic": "<message>"})"""
+    if isinstance(v, dict):
+        p = v.get("panic")
+        if isinstance(p, str) and p:
+            return p
+        for x in v.values():
+            m = _panic_in(x)
+            if m is not None:
+                return m
+    elif isinstance(v, list):
+        for x in v:
+            m = _panic_in(x)
+            if m is not None:
+                return m
+    return None
 
 
 def _canary_pick(events, pred):
